@@ -49,6 +49,7 @@ def total(pick, enc, hexbm, nmax, mti_opaque=False, unconfigured=None, bad_hex=F
 
         def rp():
             return {'kind': 'loads', 'args': {'data': witness_bytes(msg), 'enc': enc, 'hexbm': hexbm}}
+        core.set_fallback(rp, 'C07/concretised')
         with guard('loads', 'C07/exception', rp, allow=(iso.Iso8583DataError,), hang_key='C07/hang'):
             try:
                 iso.loads(msg, encoding=enc, hex_bitmap=hexbm)
@@ -73,6 +74,7 @@ def short(enc, hexbm):
 
         def rp():
             return {'kind': 'loads', 'args': {'data': witness_bytes(msg), 'enc': enc, 'hexbm': hexbm}}
+        core.set_fallback(rp, 'C07/concretised')
         with guard('loads', 'C07/exception', rp, allow=(iso.Iso8583DataError,), hang_key='C07/hang'):
             try:
                 iso.loads(msg, encoding=enc, hex_bitmap=hexbm)
@@ -96,6 +98,7 @@ def pds_walker(nmax):
 
         def rp():
             return {'kind': 'pds', 'args': {'field': concretize(field, ev) if isinstance(field, Rope) else field}}
+        core.set_fallback(rp, 'C07/concretised')
         with guard('_pds_to_dict', 'C07/pds-exception', rp, allow=(iso.Iso8583DataError,), hang_key='C07/pds-hang'):
             try:
                 iso._pds_to_dict(field)
@@ -116,6 +119,7 @@ def icc_walker(nmax):
 
         def rp():
             return {'kind': 'icc', 'args': {'field': concretize(field, ev) if isinstance(field, Rope) else field}}
+        core.set_fallback(rp, 'C07/concretised')
         with guard('_icc_to_dict', 'C07/icc-exception', rp, allow=(iso.Iso8583DataError,), hang_key='C07/icc-hang'):
             try:
                 got = iso._icc_to_dict(field)
@@ -152,6 +156,7 @@ def file_level(kind, blocked, fmax, nrec):
 
         def rp():
             return {'kind': 'file', 'args': {'data': concretize(src.rope(), ev), 'reader': kind, 'blocked': blocked}}
+        core.set_fallback(rp, 'C07/concretised')
         rd = (m.VbsReader if kind == 'vbs' else m.IpmReader)(f, blocked=blocked)
         n = 0
         end = None
@@ -187,6 +192,7 @@ def hex_bitmap_family(enc):
         tail = choose('tail', [b'', b'164444555566667777', b'0512345'])
         data = '1144'.encode(enc) + bm + tail
         rp = {'kind': 'loads', 'args': {'data': data, 'enc': enc, 'hexbm': True}}
+        core.set_fallback(rp, 'C07/concretised')
         with guard('loads', 'C07/exception', rp, allow=(iso.Iso8583DataError,), hang_key='C07/hang'):
             try:
                 iso.loads(data, encoding=enc, hex_bitmap=True)
@@ -209,6 +215,7 @@ def hex_prefixes(enc):
         n = choose('cut', list(range(0, len(msg) + 1)))
         data = msg[:n]
         rp = {'kind': 'loads', 'args': {'data': data, 'enc': enc, 'hexbm': True}}
+        core.set_fallback(rp, 'C07/concretised')
         with guard('loads', 'C07/exception', rp, allow=(iso.Iso8583DataError,), hang_key='C07/hang'):
             try:
                 iso.loads(data, encoding=enc, hex_bitmap=True)
